@@ -60,7 +60,7 @@ NoneN == [n \in Nodes |-> "-"]
 Cmd0 == [pc |-> "none", cs |-> NoneN, cur |-> {}, oi |-> 0, werr |-> FALSE, ds |-> NoneN, rb |-> NoneN,
          latched |-> {}, startedAt |-> 0]
 G0 == [failure |-> "none", deleted |-> {}, order |-> "-", delOK |-> TRUE, delErr |-> FALSE, everInit |-> {},
-       rbFault |-> FALSE, rbOK |-> TRUE]
+       rbFault |-> FALSE, rbOK |-> TRUE, partial |-> FALSE]
 Node0 == [tainted |-> FALSE, reason |-> FALSE, marked |-> FALSE, deleting |-> FALSE]
 Clean0 == [pc |-> "idle", st |-> NoneN]
 
@@ -162,7 +162,8 @@ Enqueue(k) ==
 QBegin(k) ==
     /\ cmd[k].pc = "queued" /\ (\E n \in Nodes : qmap[n] = k) /\ MayStart
     /\ cmd' = [cmd EXCEPT ![k].pc = "rec", ![k].oi = 1, ![k].werr = FALSE]
-    /\ UNCHANGED <<cands, need, rs, node, qmap, g, clean, now, faults, restarts>>
+    /\ g' = [g EXCEPT ![k].delErr = FALSE]      \* per pass
+    /\ UNCHANGED <<cands, need, rs, node, qmap, clean, now, faults, restarts>>
     /\ Hist(Ev("QBegin", k, "-", "ok"))
 
 \* the pass returns `kind` (nil | rec(overable) | unrec(overable)); the deferred wrap turns it into a timeout
@@ -176,7 +177,8 @@ Ret(k, kind, why) ==
     /\ qmap' = IF final = "nil" THEN [n \in Nodes |-> IF n \in cmd[k].cur THEN "-" ELSE qmap[n]] ELSE qmap
     /\ g' = IF final = "unrec"
             THEN [g EXCEPT ![k].failure = IF @ = "none" THEN cause ELSE @,
-                           ![k].order = IF g[k].deleted # {} /\ @ = "-" THEN "del-first" ELSE @]
+                           ![k].order = IF g[k].deleted # {} /\ @ = "-" THEN "del-first" ELSE @,
+                           ![k].partial = @ \/ (g[k].failure = "none" /\ g[k].delErr)]
             ELSE g
 
 Observe(k, f) ==
@@ -349,10 +351,10 @@ Inv_C08_NoDeleteAfterFailure == \A k \in Cmds : G_C08_NoDeleteAfterFailure(g[k].
 \* others kept failing until the window closed)
 Inv_C08_NoDeleteAfterFailure_Code ==
     \A k \in Cmds : (g[k].failure # "none" /\ g[k].deleted # {}) => (g[k].failure = "timeout" /\ g[k].order = "del-first")
-\* ... with the fix: only the partial-delete case remains
+\* ... with the fix: only the partial-delete case remains (partial: in the pass that declared the timeout a candidate delete failed)
 Inv_C08_NoDeleteAfterFailure_Fixed ==
     \A k \in Cmds : (g[k].failure # "none" /\ g[k].deleted # {}) =>
-                       (g[k].failure = "timeout" /\ g[k].order = "del-first" /\ g[k].delErr)
+                       (g[k].failure = "timeout" /\ g[k].order = "del-first" /\ g[k].partial)
 \* a node is the subject of at most one action in progress
 Inv_C08_SingleCommandPerNode == \A k \in Cmds : InProgress(k) => G_C08_SingleCommandPerNode(Subj(k), Others(k))
 \* bounded progress: when every controller is at rest, nodes that are not the subject of an action in progress (and
